@@ -22,6 +22,8 @@ type Event struct {
 	N     int    `json:"n,omitempty"`
 	Crash int    `json:"crash,omitempty"` // k+1: the node under test dies before its k-th effect op of this event; 0 = none
 	Dev   int    `json:"dev,omitempty"`   // deviation cost
+	// NoCrash: the event is a probe / a harness action, not behaviour of the node: no crash variants of it
+	NoCrash bool `json:"nc,omitempty"`
 }
 
 func (e Event) String() string {
@@ -257,7 +259,7 @@ func BFS(name string, runB BatchRunner, b Bounds) *Report {
 					}
 					rep.Outcomes[res.Outcome]++
 					addV(res.Violations, j.h)
-					if !crashRound && !b.NoCrash && j.parent.dev+j.e.Dev+1 <= b.MaxDev {
+					if !crashRound && !b.NoCrash && !j.e.NoCrash && j.parent.dev+j.e.Dev+1 <= b.MaxDev {
 						for k := 0; k < res.Effects; k++ {
 							if b.CrashAfterStore && !containsInt(res.StoreOps, k-1) {
 								continue
